@@ -92,6 +92,14 @@ def sig_ty(ty):
     return 'f32' in ty or 'f64' in ty or 'Frame' in ty
 
 
+def ty_of(b, pl):
+    """Type of a place; spliced-in helper code carries the type only in the local declarations."""
+    t = pl.get('ty')
+    if t is None and not pl.get('p') and pl.get('l') is not None and pl['l'] < len(b.locals):
+        t = b.locals[pl['l']].get('ty')
+    return t
+
+
 def ref_like(ty):
     return bool(ty) and ('&' in ty or '*mut' in ty or '*const' in ty or 'iter::' in ty or 'slice::Iter' in ty or 'Chunks' in ty
                          or 'Enumerate' in ty or 'Zip' in ty or 'vec::Vec' in ty and False)
@@ -220,7 +228,7 @@ class Lin:
         if 'pl' not in op:
             return ('K', C)
         pl = op['pl']
-        if tyfilter and not sig_ty(pl.get('ty')):
+        if tyfilter and not sig_ty(ty_of(b, pl)):
             return ('K', C)
         return self.node(b, pl)
 
@@ -238,6 +246,8 @@ class Lin:
             if s['k'] != 'assign':
                 continue
             lhs = s['lhs']
+            if lhs.get('ty') is None:
+                lhs = dict(lhs, ty=ty_of(b, lhs))
             if not sig_ty(lhs.get('ty')):
                 continue
             dst = self.node(b, lhs)
@@ -312,7 +322,7 @@ class Lin:
         nm = (t.get('callee') or {}).get('name') or cp.split('::')[-1]
         line = t.get('line')
         dest = t.get('dest')
-        dnode = self.node(b, dest) if dest and sig_ty(dest.get('ty')) else None
+        dnode = self.node(b, dest) if dest and sig_ty(ty_of(b, dest)) else None
         args = [self.op_node(b, a) for a in t['args']]
         if cp in IGNORED_CALLS:
             return
